@@ -258,6 +258,7 @@ func ruleCC7() Rule {
 				if f == nil {
 					continue
 				}
+				f = c.effective(f) // a thin wrapper hands the obligation to the function that does the work
 				info := f.Info()
 				cancel := c.fieldVar(f.Pkg.Name, "lexer", "cancel")
 				fl := core.NewFlow(f)
@@ -1580,6 +1581,7 @@ func ruleER1() Rule {
 			if top == nil {
 				return
 			}
+			top = c.effective(top)
 			errF := c.fieldVar("parser", "lexer", "err")
 			storesDirectly := func(g *core.Func) bool {
 				found := false
@@ -3769,7 +3771,7 @@ func ruleAR5() Rule {
 
 func ruleMK1() Rule {
 	return Rule{ID: "MK1", Kind: "must-not", Floor: 10,
-		Doc: "lit() stamps the text collected in the lexer's buffer with l.pos. Inside one scanner function no path leads from a write into the buffer to a mark() - which moves l.pos to the current column - without the buffer having been flushed (lit(), comment(), Reset()) in between: otherwise the pending literal is recorded at the position of whatever follows it",
+		Doc: "lit() stamps the text collected in the lexer's buffer with l.pos. Inside one scanner function no path leads from a write into the buffer to a mark() - which moves l.pos to the current column - without the buffer having been flushed (lit(), comment(), Reset()) in between: otherwise the pending literal is recorded at the position of whatever follows it. A helper that flushes and then marks (`lit(); mark(-1); return scanX()`) counts, at its call, as the flush and the mark it contains",
 		Run: func(c *Ctx, rr *core.RuleResult) {
 			buf := c.fieldVar("parser", "lexer", "b")
 			markFn := c.fn("parser.(*lexer).mark")
@@ -3782,6 +3784,106 @@ func ruleMK1() Rule {
 				if g := c.fn(n); g != nil {
 					flushers[g] = true
 				}
+			}
+			// summaries of the helpers: does a mark in it (or below it) happen before it has
+			// flushed, and has it flushed whenever it returns
+			type summary struct {
+				marks, marksUnflushed, alwaysFlushes bool
+			}
+			sums := map[*core.Func]*summary{}
+			var summarise func(h *core.Func, depth int) *summary
+			calleeOf := func(info *types.Info, n ast.Node) (*ast.CallExpr, *core.Func) {
+				call, ok := n.(*ast.CallExpr)
+				if !ok {
+					return nil, nil
+				}
+				fo := core.StaticCallee(info, call)
+				if fo == nil {
+					return call, nil
+				}
+				return call, c.P.FuncOf(fo)
+			}
+			summarise = func(h *core.Func, depth int) *summary {
+				if s, ok := sums[h]; ok {
+					return s
+				}
+				s := &summary{}
+				sums[h] = s // recursion: counted as neither marking nor flushing
+				if h == nil || h.Body == nil || h.Decl == nil || depth > 3 || h == markFn || flushers[h] {
+					return s
+				}
+				// the character source marks where alias text ends; that is not the scanners' protocol
+				if rd := c.fn("parser.(*lexer).read"); rd != nil && c.effective(h) == c.effective(rd) {
+					return s
+				}
+				// only small helpers of the lexer are looked into: the scanners themselves are judged on their own
+				if len(h.Body.List) > 6 {
+					return s
+				}
+				info := h.Info()
+				isFlush := func(n ast.Node) bool {
+					call, g := calleeOf(info, n)
+					if call == nil {
+						return false
+					}
+					if se, ok := call.Fun.(*ast.SelectorExpr); ok && se.Sel.Name == "Reset" && core.FieldOf(info, se.X) == buf {
+						return true
+					}
+					if g == nil {
+						return false
+					}
+					return flushers[g] || (g != h && summarise(g, depth+1).alwaysFlushes && !summarise(g, depth+1).marksUnflushed)
+				}
+				isMark := func(n ast.Node) (bool, bool) { // marks, and before the callee has flushed
+					_, g := calleeOf(info, n)
+					if g == nil {
+						return false, false
+					}
+					if g == markFn {
+						return true, true
+					}
+					if g != h {
+						gs := summarise(g, depth+1)
+						return gs.marks, gs.marksUnflushed
+					}
+					return false, false
+				}
+				flushed := core.NewFlow(h).MustSeen(false, isFlush, nil)
+				h.OwnNodes(func(n ast.Node) bool {
+					if m, early := isMark(n); m {
+						s.marks = true
+						if early && !flushed[n] {
+							s.marksUnflushed = true
+						}
+					}
+					return true
+				})
+				// flushed at every return (a flush inside the returned expression counts), and the body ends in a return
+				rets, good := 0, 0
+				h.OwnNodes(func(n ast.Node) bool {
+					ret, ok := n.(*ast.ReturnStmt)
+					if !ok {
+						return true
+					}
+					rets++
+					okRet := flushed[ret]
+					ast.Inspect(ret, func(x ast.Node) bool {
+						if x != nil && isFlush(x) {
+							okRet = true
+						}
+						return true
+					})
+					if okRet {
+						good++
+					}
+					return true
+				})
+				endsInReturn := false
+				if k := len(h.Body.List); k > 0 {
+					_, endsInReturn = h.Body.List[k-1].(*ast.ReturnStmt)
+				}
+				s.alwaysFlushes = rets > 0 && rets == good && endsInReturn
+				return s
 			}
 			// linebreak() writes the buffer only while its comment flag is set and marks
 			// only while it is clear; that exclusion is what CM3 checks (same check)
@@ -3804,15 +3906,21 @@ func ruleMK1() Rule {
 					return ok && strings.HasPrefix(se.Sel.Name, "Write") && core.FieldOf(info, se.X) == buf
 				}
 				isFlush := func(n ast.Node) bool {
-					call, ok := n.(*ast.CallExpr)
-					if !ok {
+					call, g := calleeOf(info, n)
+					if call == nil {
 						return false
 					}
 					if se, ok := call.Fun.(*ast.SelectorExpr); ok && se.Sel.Name == "Reset" && core.FieldOf(info, se.X) == buf {
 						return true
 					}
-					fo := core.StaticCallee(info, call)
-					return fo != nil && flushers[c.P.FuncOf(fo)]
+					if g == nil {
+						return false
+					}
+					if flushers[g] {
+						return true
+					}
+					gs := summarise(g, 0)
+					return gs.alwaysFlushes && !gs.marksUnflushed
 				}
 				hasWrite := false
 				f.OwnNodes(func(n ast.Node) bool {
@@ -3827,13 +3935,16 @@ func ruleMK1() Rule {
 				pending := core.NewFlow(f).Reaches(isWrite, isFlush)
 				k := 0
 				f.OwnNodes(func(n ast.Node) bool {
-					call, ok := n.(*ast.CallExpr)
-					if !ok {
+					call, g := calleeOf(info, n)
+					if call == nil || g == nil {
 						return true
 					}
-					fo := core.StaticCallee(info, call)
-					if fo == nil || c.P.FuncOf(fo) != markFn {
-						return true
+					var gs *summary
+					if g != markFn {
+						gs = summarise(g, 0)
+						if !gs.marks {
+							return true
+						}
 					}
 					// only marks inside a scanner loop: there the text of earlier
 					// iterations is what may be pending.  A mark after the loop, or the
@@ -3856,9 +3967,12 @@ func ruleMK1() Rule {
 					}
 					k++
 					key := fmt.Sprintf("%s|mark #%d in the scanner loop", f.Name, k)
-					if pending[call] {
+					switch {
+					case gs != nil && !gs.marksUnflushed:
+						rr.OK(f, key, call.Pos(), "flushed-in-helper", g.Short+" flushes the buffer before it marks")
+					case pending[call]:
 						rr.Bad(f, key, call.Pos(), "mark() can be reached with text still pending in the buffer (no lit()/comment() since the last write): the pending literal will be recorded at the position marked here, i.e. at the position of what follows it")
-					} else {
+					default:
 						rr.OK(f, key, call.Pos(), "flushed", "every path from a buffer write to this mark passes a flush")
 					}
 					return true
